@@ -41,7 +41,7 @@ pub fn te_json(e: &TE) -> J {
             json!({"k": "fix", "el": idx(*element), "len": u64::try_from(*length).unwrap_or(u64::MAX)})
         }
         TE::Conflict { .. } => json!({"k": "conflict"}),
-        TE::Equal { id } => json!({"k": "equal", "id": idx(*id)}),
+        TE::Equal { id } => json!({"k": "eq", "id": idx(*id)}),
         TE::Packed { types, is_struct } => json!({
             "k": "packed", "struct": is_struct,
             "spans": types.iter().map(|s| json!([idx(s.typ), s.offset, s.size])).collect::<Vec<_>>(),
